@@ -489,6 +489,10 @@ def check(case):
         return check_changing(res, case)
     if kind == "setup":
         return check_setup(res, case)
+    if kind == "unavailable":
+        return check_unavailable(res, case)
+    if kind == "overlap":
+        return check_overlap(res, case)
     cfg = case.get("cfg")
     values_list = case["values"]
     modes = case["modes"]
@@ -507,6 +511,148 @@ def check(case):
         res.label("regex-special-separator")
     res.labels = sorted(set(res.labels))
     return res
+
+
+class NotAvailableYet(Exception):
+    pass
+
+
+def check_unavailable(res, case):
+    """Malformed tag values never match -- whatever the current value is: the verdict for a typed category all of
+    whose tags are malformed does not need the current value, so a lazy current value that cannot be computed at
+    that moment (the callable raises) changes nothing."""
+    from behave.tag_matcher import ActiveTagValueProvider, CompositeActiveTagValueProvider
+    from behave.tag_matcher import BoolValueObject, NumberValueObject
+    tags, values, mode = case["tags"], case["values"], case["mode"]
+    active, _ordinary, ambiguous = parse_tags(tags, None)
+    if ambiguous:
+        res.label("ambiguous")
+        return res
+    bombs = sorted(c for c in case["bombs"] if c in values)
+
+    def bomb():
+        raise NotAvailableYet("the current value cannot be computed yet")
+    provider = {}
+    for c, d in values.items():
+        if c in bombs:
+            cls = {"number": NumberValueObject, "bool": BoolValueObject}[d["kind"]]
+            provider[c] = cls(bomb) if d.get("op") is None else cls(bomb, _behave_op(d["op"]))
+        else:
+            provider[c] = build_value(d)
+    if mode == "atvp":
+        provider = ActiveTagValueProvider(provider)
+    elif mode == "composite-dict":
+        provider = CompositeActiveTagValueProvider([{}, provider])
+    matcher = build_active_matcher(provider, None)
+    expected = ref_excluded(active, values, True)
+    res.evals = 1
+    res.nontrivial = True
+    res.label("malformed-with-unavailable-current-value", "unavailable:" + mode)
+    try:
+        excl = matcher.should_exclude_with(list(tags))
+    except NotAvailableYet:
+        res.fail("C19.malformed.needs-current-value", "tags %r: every tag of the typed categories %s has a malformed "
+                 "value (never matching), yet the decision evaluated the lazy current value (which raised)"
+                 % (tags, bombs), mode=mode)
+        return res
+    if bool(excl) != expected:
+        res.fail("C19.malformed.verdict", "tags %r, values %r: should_exclude_with=%r, expected %r"
+                 % (tags, values, excl, expected), mode=mode)
+    return res
+
+
+def gen_unavailable_case(rnd):
+    cats = _sample(rnd, ["cores", "gui", "os", "level"], 3, 1)
+    values, tags, bombs = {}, [], []
+    for c in cats:
+        kind = rnd.choice(["number", "bool", "plain"])
+        if kind == "plain":
+            values[c] = rnd.choice(STRING_POOL[:5])
+            for _ in range(rnd.randint(0, 2)):
+                tags.append("%s.with_%s=%s" % (rnd.choice(DEFAULT_PREFIXES), c, rnd.choice(STRING_POOL[:5])))
+            continue
+        if kind == "number":
+            values[c] = {"kind": "number", "op": rnd.choice(NUMBER_OPS), "value": rnd.randint(0, 9)}
+            bad = NUMBER_TAGS_BAD
+        else:
+            values[c] = {"kind": "bool", "op": rnd.choice([None, "eq", "ne"]), "value": rnd.random() < 0.5}
+            bad = BOOL_TAGS_BAD
+        bombs.append(c)
+        for _ in range(rnd.randint(1, 3)):
+            tags.append("%s.with_%s=%s" % (rnd.choice(DEFAULT_PREFIXES), c, rnd.choice(bad)))
+    rnd.shuffle(tags)
+    return {"kind": "unavailable", "tags": tags, "values": values, "bombs": bombs,
+            "mode": rnd.choice(["dict", "atvp", "composite-dict"])}
+
+
+def check_overlap(res, case):
+    """A composite provider over providers that BOTH know a category (overrides before defaults): the first one
+    decides, at every decision, with its CURRENT (lazy) value -- also when its lazy value could not be computed at
+    the time of an earlier decision (a LookupError from the user's callable is the user's error, not 'unknown')."""
+    from behave.tag_matcher import ActiveTagValueProvider, CompositeActiveTagValueProvider
+    tags, worlds, defaults, mode = case["tags"], case["values"], case["defaults"], case["mode"]
+    active, _ordinary, ambiguous = parse_tags(tags, None)
+    if ambiguous:
+        res.label("ambiguous")
+        return res
+    cats = sorted(worlds[0])
+    cell = {"now": worlds[0], "ready": not case.get("late")}
+
+    def current(c):
+        if not cell["ready"]:
+            raise KeyError(c)       # settings[c] is not there yet
+        return cell["now"][c]
+    overrides = {c: (lambda c=c: current(c)) for c in cats}
+    if mode == "atvp":
+        provider = CompositeActiveTagValueProvider([ActiveTagValueProvider(overrides), ActiveTagValueProvider(dict(defaults))])
+    elif mode == "dict":
+        provider = CompositeActiveTagValueProvider([overrides, dict(defaults)])
+    else:
+        provider = CompositeActiveTagValueProvider([ActiveTagValueProvider(overrides), dict(defaults)])
+    matcher = build_active_matcher(provider, None)
+    res.label("overlapping-providers", "overlap:" + mode)
+    if case.get("late"):
+        res.label("overlap:first-decision-before-the-value-exists")
+        try:
+            matcher.should_exclude_with(list(tags))
+        except KeyError:
+            res.label("overlap:first-decision-raised")
+        cell["ready"] = True
+    verdicts = []
+    for k in case.get("order") or [0, 1]:
+        cell["now"] = worlds[k]
+        expected = ref_excluded(active, dict(defaults, **worlds[k]), True)
+        by_defaults = ref_excluded(active, dict(defaults), True)
+        excl = matcher.should_exclude_with(list(tags))
+        res.evals += 1
+        verdicts.append(expected)
+        if expected != by_defaults:
+            res.nontrivial = True
+            res.label("overlap:providers-disagree")
+        if bool(excl) != expected:
+            res.fail("C19.overlap.first-provider-decides", "tags %r, decision #%d: should_exclude_with=%r; the first "
+                     "provider's current values %r give %r (the second provider holds %r)%s"
+                     % (tags, len(verdicts), excl, worlds[k], expected, defaults,
+                        "; at an earlier decision the first provider's value did not exist yet" if case.get("late") else ""),
+                     mode=mode)
+            break
+    return res
+
+
+def gen_overlap_case(rnd):
+    cats = _sample(rnd, ["browser", "os", "level"], 3, 1)
+    pool = STRING_POOL[:5]
+    worlds = [{c: rnd.choice(pool) for c in cats} for _ in range(2)]
+    defaults = {c: rnd.choice(pool) for c in cats}
+    if rnd.random() < 0.5:
+        defaults["extra"] = rnd.choice(pool)
+    tags = []
+    for _ in range(rnd.randint(1, 4)):
+        c = rnd.choice(cats + (["extra"] if "extra" in defaults else []))
+        tags.append("%s.with_%s=%s" % (rnd.choice(DEFAULT_PREFIXES), c, rnd.choice(pool)))
+    return {"kind": "overlap", "tags": tags, "values": worlds, "defaults": defaults,
+            "mode": rnd.choice(["atvp", "dict", "mixed"]), "late": rnd.random() < 0.5,
+            "order": rnd.choice([[0, 1], [0, 1, 0], [1, 0]])}
 
 
 SETUP_MODES = ["dict", "atvp", "composite-dict", "composite-atvp", "composite-mixed"]
@@ -747,6 +893,20 @@ def _shape(d):
     return "str" if (d is None or isinstance(d, str)) else (d.get("kind"), d.get("op"))
 
 
+def _bombs_only_malformed(case):
+    active, _o, ambiguous = parse_tags(case["tags"], None)
+    if ambiguous:
+        return False
+    for _prefix, category, value in active:
+        if category in case["bombs"]:
+            d = case["values"][category]
+            if d["kind"] == "number" and _INT_RE.match(value):
+                return False
+            if d["kind"] == "bool" and value.lower() in (_TRUE | _FALSE if isinstance(_TRUE, (set, frozenset)) else set(_TRUE) | set(_FALSE)):
+                return False
+    return True
+
+
 def valid_case(case):
     """Shrinking guard: reject structurally broken variants."""
     def cfg_ok(cfg):
@@ -774,6 +934,20 @@ def valid_case(case):
         return (cfg_ok(case.get("cfg")) and case.get("mode") in SETUP_MODES and isinstance(case.get("overrides"), dict)
                 and all(isinstance(v, str) for v in case["overrides"].values())
                 and all(value_ok(d) for d in case["values"].values()))
+    if case.get("kind") == "unavailable":
+        return (isinstance(case.get("values"), dict) and all(value_ok(d) for d in case["values"].values())
+                and case.get("mode") in ("dict", "atvp", "composite-dict") and isinstance(case.get("bombs"), list)
+                and all(isinstance(case["values"].get(c), dict) and case["values"][c]["kind"] in ("number", "bool")
+                        for c in case["bombs"])
+                and _bombs_only_malformed(case))
+    if case.get("kind") == "overlap":
+        worlds = case.get("values") or []
+        return (len(worlds) == 2 and all(sorted(w) == sorted(worlds[0]) for w in worlds) and bool(worlds[0])
+                and all(isinstance(v, str) for w in worlds for v in w.values())
+                and isinstance(case.get("defaults"), dict) and set(worlds[0]) <= set(case["defaults"])
+                and all(isinstance(v, str) for v in case["defaults"].values())
+                and case.get("mode") in ("atvp", "dict", "mixed")
+                and all(0 <= k < 2 for k in (case.get("order") or [0])))
     if case.get("kind") == "changing":
         worlds = case.get("values") or []
         return (cfg_ok(case.get("cfg")) and len(worlds) >= 2 and all(sorted(w) == sorted(worlds[0]) for w in worlds)
@@ -1068,6 +1242,8 @@ def explore(rec):
     rec.hyp("configured-values", _strategy(gen_setup_case), 12000 if quick else 200000)
     rec.hyp("changing-lazy-values", _strategy(gen_changing_case), 12000 if quick else 200000)
     rec.hyp("regex-special-separator", _strategy(gen_literal_sep_case), 6000 if quick else 60000)
+    rec.hyp("malformed-tags-with-unavailable-current-value", _strategy(gen_unavailable_case), 4000 if quick else 60000)
+    rec.hyp("overlapping-providers", _strategy(gen_overlap_case), 6000 if quick else 100000)
 
 
 def required_labels(tier):
@@ -1081,10 +1257,13 @@ def required_labels(tier):
             + ["setup_active_tag_values", "setup:overrides-known-category", "setup:unknown-category-in-data",
                "setup:matcher-created-before-the-values"]
             + ["setup:" + m for m in SETUP_MODES]
-            + ["changing-lazy-values", "changing:verdict-flips"] + ["changing:" + m for m in CHANGING_MODES])
+            + ["changing-lazy-values", "changing:verdict-flips"] + ["changing:" + m for m in CHANGING_MODES]
+            + ["malformed-with-unavailable-current-value", "overlapping-providers", "overlap:providers-disagree",
+               "overlap:first-decision-before-the-value-exists", "overlap:atvp", "overlap:dict", "overlap:mixed"])
 
 
 KNOWN_PREDICATES = {}
 
 
 RULE = RULE + " " + ('Changing lazy values: one matcher is asked several times while the world behind the callables changes (plain mapping with lazy value objects, ActiveTagValueProvider, composite providers over mappings / providers): every decision is made against the CURRENT values.')
+RULE = RULE + " " + ('Two further sub-checks: typed categories all of whose tags are malformed are decided without the current value (a lazy value that cannot be computed at that moment changes nothing); composite providers over providers that both know a category: the first one decides at every decision with its current value, also after an earlier decision at which its lazy value did not exist yet (KeyError from the callable).')
